@@ -82,11 +82,57 @@ def generate(rng, tier):
         c = build(m2)
         if c is not None:
             yield c
+    yield from reader_byte_sweeps(rng, tier)
     # the length-limited readers (LimitedReader / read_limited) against the slice cut at the limit
     yield from D.readlim_cases(rng, 1500 if tier == "quick" else 40000)
 
 
+def reader_byte_sweeps(rng, tier="quick"):
+    """every reader door on a well-formed header of its type in which one octet after the other takes all 256
+    values (reserved bits, length octets, type numbers, flag combinations no serialiser of the crate produces),
+    followed by enough bytes for whatever length the octet announces"""
+    from .. import pktgen as P
+
+    tailn = 2100
+    def hdrs():
+        yield "eth2", bytes(P.mk_eth(rng, 0x0800).data), 14
+        yield "vlan", bytes(P.mk_vlan(rng, 0x0800).data), 4
+        yield "sll", bytes(P.mk_sll(rng, 0x0800).data), 16
+        for _ in range(3):
+            l, _u = P.mk_macsec(rng, 0x0800, rng.choice([0, 10, 40]))
+            yield "macsec", bytes(l.data), min(len(l.data), 8)
+        yield "arp", bytes(P.mk_arp(rng).data), 8
+        yield "ipv4", bytes(P.mk_ipv4(rng, 17, 8).data), 20
+        yield "ipv6", bytes(P.mk_ipv6(rng, 17, 8).data), 8
+        yield "iph", bytes(P.mk_ipv4(rng, 51, 12).data) + bytes(P.mk_ah(rng, 17).data), 22
+        yield "iph", bytes(P.mk_ipv6(rng, 0, 16).data) + bytes(P.mk_rawext(rng, "hbh", 44).data)[:8] + bytes(P.mk_fragext(rng, 17).data), 8
+        yield "ah", bytes(P.mk_ah(rng, 17).data), 4
+        yield "rawext", bytes(P.mk_rawext(rng, "dest", 17).data), 2
+        yield "frag", bytes(P.mk_fragext(rng, 17).data), 8
+        yield "udp", bytes(P.mk_udp(rng, 4).data), 8
+        yield "tcp", bytes(P.mk_tcp(rng, 4).data), 20
+        yield "icmp4", bytes(P.mk_icmp4(rng, 4).data), 8
+        yield "icmp6", bytes(P.mk_icmp6(rng, 4).data), 8
+    for name, h, nsweep in hdrs():
+        tail = bytes(rng.randrange(256) for _ in range(tailn if name in ("ah", "rawext", "iph") else 80))
+        lines = []
+        for pos in range(min(nsweep, len(h))):
+            for v in range(256):
+                if v == h[pos]:
+                    continue
+                b = bytearray(h)
+                b[pos] = v
+                t = tail if name in ("ah", "rawext") and pos == 1 else tail[:80]
+                lines.append("impl.dec.read_%s\t%s" % (name, hx(bytes(b) + t)))
+        step = 1 if tier != "quick" or name in ("macsec", "sll", "tcp", "ipv4", "ah", "rawext", "frag", "vlan") else 3
+        for i in range(0, len(lines), 64):
+            chunk = lines[i : i + 64][::step]
+            yield Case(chunk, {"k3": "read", "sweep": name, "start": "sweep", "et": 0, "data": "-"})
+
+
 def is_trivial(c):
+    if "sweep" in c.meta:
+        return False
     if "readlim" in c.meta:
         return c.meta.get("len", 0) < 8
     return not any(("ok(" in (o or "")) for o in c.impl)
@@ -202,7 +248,8 @@ def oracle(c):
                 continue
             op = line.split("\t", 1)[0]
             s, r = o[6:].split("|read=", 1)
-            data = D.meta_bytes(c.meta)
+            arg = line.split("\t")[-1]
+            data = bytes.fromhex(arg) if arg != "-" else b""
             if op == "impl.dec.read_iph" and len(data) >= 6 and data[0] >> 4 == 6 and data[4] == 0 and data[5] == 0:
                 # a zero IPv6 payload length means "to the end of the slice"; a reader has no such end
                 continue
